@@ -4,6 +4,9 @@
 def classify(inp, obs, tags):
     fmt = next((t[4:] for t in inp.split() if t.startswith("fmt=")), "?")
     lay = next((t[4:] for t in inp.split() if t.startswith("lay=")), "?")
+    # a second vector `b` of the writer thread (items b<n> in pre= / w=)
+    if any(t.startswith(("pre=", "w=")) and any(x.startswith("b") for x in t.split("=", 1)[1].replace("+", ",").split(",")) for t in inp.split()):
+        lay += "+b"
     bad = any(" res=bad" in o for o in obs)
     regime = next((x for t in tags for x in t.split() if x.startswith("regime:")), "regime:?")
     return [f"{fmt}:{lay}:{regime}:{'bad-read' if bad else 'ok'}"], True
@@ -12,20 +15,30 @@ def classify(inp, obs, tags):
 PROP = dict(
     engines=[dict(
         name="schedvec", classify=classify,
-        quick=dict(cases=1120, shards=16, extra=["--shards", "16", "--por", "1", "--xmax", "14"]),
+        quick=dict(cases=1280, shards=16, extra=["--shards", "16", "--por", "1", "--xmax", "14"]),
         thorough=dict(cases=16000, shards=16, extra=["--shards", "16", "--por", "0", "--xmax", "900"]),
     )],
     rule="schedules: (a) interleavings of ONE write() with TWO reader operations at pause-point granularity, enumerated "
          "from the probed stop sequences of the real code, for 14 regimes (raw: fits, in-place extension, relocation to the "
          "end / into a hole, expansion into the adjacent hole, each with and without file growth; pco/lz4: fast raw append, "
          "page-aligned start, partial-page re-encode = page overflow in place, with relocation, with file growth) and 3-4 reader "
-         "operation pairs (collect_one_at, collect_range_at, fold_range_at, VecReader, cursor); quick = stride sample of the "
-         "enumeration reduced by commuting adjacent reader steps, thorough = the full enumeration; (b) random longer schedules "
-         "(1-3 writes, 1-3 readers x 1-3 operations, fine stops incl. the mmap lock taps); non-trivial = every case (two or more "
-         "threads interleaved); distinct = distinct input line",
+         "operation pairs (collect_one_at, collect_range_at, fold_range_at, VecReader, cursor), plus 4 TWO-VECTOR regimes (raw from "
+         "two layouts, pco, lz4) in which the writer thread owns a second vector b of the same database and the schedule is "
+         "write(a) that relocates a, then write(b) that needs an extent no larger than the one a vacated (b relocates too), with "
+         "1-2 reader pairs each (VecReader / fold_range_at / cursor / collect_range_at created before the relocation; compressed: "
+         "collect_one_at / fold / range / cursor): for these the directed schedule 'readers up to the stop at which they hold "
+         "their Reader, writer to the end of both writes, readers to the end' is always run in addition to the enumeration; "
+         "quick = stride sample of the enumeration reduced by commuting adjacent reader steps, thorough = the full enumeration "
+         "(capped at 400000 per configuration); (b) random longer schedules (1-3 writes, 1-3 readers x 1-3 operations, fine stops "
+         "incl. the mmap lock taps), a quarter of them with the second vector b (created with an initial size by 1-2 pre-phase "
+         "writes, written 1-2 times between / after the writes of a: its relocations, in-place extensions and file growths are "
+         "ordinary writer stops); the oracle is the same in all cases (values read = values pushed to a, b's values come from "
+         "another generator); non-trivial = every case (two or more threads interleaved); distinct = distinct input line",
     trusted_base=["the controller parks real threads at taps compiled under cfg(anydb_verif); steps between taps are assumed atomic",
                   "the allocator's and the compressor's answers are inputs of the step model (hints measured in a sequential dry run); "
-                  "the model checks the allocator answer against its freshness guard"],
+                  "the model checks every allocator answer against its freshness guard: a's placements against a's current and "
+                  "vacated extents, and b's placements against them too (one model instance per vector, each seeing the other's "
+                  "placements as LWOther/KOther steps); the page-index regions' placements are not modelled"],
     assumptions=["sequential consistency inside and between steps for SharedLen Release/Acquire (premise of the theorems, regenerated)",
                  "a remap of the data file preserves the contents of the memory map"],
 )
@@ -47,7 +60,13 @@ TEXT = dict(
           "REFUTES the full statement (C09_comp_prefix_refuted: write() re-encodes an overflowing partial page in place before it "
           "takes the pages lock, so a reader holding the old page entry decodes rewritten bytes; with a relocation a reader with an "
           "old region snapshot decodes the new entry at the old place); proved for every schedule: the lengths part "
-          "(C09_comp_lens_partial). The schedule-replay engine reproduces both defects on the real code."),
+          "(C09_comp_lens_partial). Writes of the same thread to OTHER vectors of the database are steps of both models "
+          "(LWOther/KOther: foreign bytes land in an extent that must pass the freshness guard); C09_raw_prefix covers them, and "
+          "C09_raw_other_write_frame / C09_comp_other_write_frame state the frame: such a write changes no byte of the vector's "
+          "current extent nor of any extent it vacated and nothing else of its state. "
+          "The schedule-replay engine reproduces both defects on the real code; with a second vector it also detects an allocator "
+          "that hands a vacated, unflushed extent out again under a live reader snapshot "
+          "(key reader-saw-bytes-of-another-vector-after-relocation)."),
     note=("Trusted: Coq kernel; gen_consts.py (orderings of SharedLen); extraction and the OCaml driver; the Rust harness and its "
           "controller. The Rust code is modelled, not verified."),
 )
